@@ -214,13 +214,14 @@ impl Scenario for C17 {
         // (this is the race of the real reader's select!)
         let first_is_key = rng.chance(0.5);
         events.sort_by_key(|e| (e.at_ns, if first_is_key { (e.ev == Ev::Tick) as u8 } else { (e.ev != Ev::Tick) as u8 }));
-        let n_ac = *rng.pick(&[0u8, 0, 1, 1, 2, 3, 4, 6]);
+        // (1 session in 50 has more rows than the terminal is high: scrolling)
+        let n_ac = if rng.chance(0.02) { rng.range(30, 200) as u8 } else { *rng.pick(&[0u8, 0, 1, 1, 2, 3, 4, 6]) };
         let mut feeds = Vec::new();
         for ac in 0..n_ac {
             // bursts of records separated by silences longer than the 30 s ageing
             let mut t = rng.below(span_ns / 2 + 1);
             for _ in 0..rng.usize(1, 3) {
-                for _ in 0..rng.usize(1, 6) {
+                for _ in 0..rng.usize(if n_ac > 6 { 2 } else { 1 }, 6) {
                     feeds.push(Feed { ac, at_ns: t, kind: rng.below(4) as u8 });
                     t += rng.range(1_000_000, 2_000_000_000);
                 }
